@@ -134,6 +134,14 @@ def bounded(ctx, b):
         Caption(10 ** 6, 2 * 10 ** 6, [ST(True, {"italics": True, "region": "r0"}, lr), T("y", lr), ST(False, {"italics": True, "region": "r0"}, lr)], layout_info=lr),
         Caption(2 * 10 ** 6, 3 * 10 ** 6, [ST(True, {"bold": True, "region": "bottom"}, lr), T("z", lr), ST(False, {"bold": True, "region": "bottom"}, lr)])],
         layout_info=lr)})))
+    # text that looks like the markup the writer produces itself (region="r0"), next to a layout nothing refers to once a
+    # language is forced; captions a fraction of a millisecond apart (they are not concurrent)
+    lq = Layout(origin=Point(Size(30, UnitEnum.PERCENT), Size(30, UnitEnum.PERCENT)))
+    sets.append(("text_that_quotes_region_attributes", CaptionSet({
+        "en": CaptionList([Caption(0, 10 ** 6, [T('say region="r0" and region="r1" and xml:id="r0"')]), Caption(10 ** 6, 2 * 10 ** 6, [T('<span region="bottom">'), BR(), T("x", lq)])]),
+        "fr": CaptionList([Caption(0, 10 ** 6, [T("un")], layout_info=lq)], layout_info=lq)})))
+    sets.append(("captions_a_fraction_of_a_millisecond_apart", CaptionSet({"en": CaptionList([
+        Caption(10 ** 6, 3 * 10 ** 6, [T("a")]), Caption(10 ** 6 + 400, 3 * 10 ** 6 + 400, [T("b")]), Caption(86400 * 10 ** 6 + 10 ** 6, 86400 * 10 ** 6 + 3 * 10 ** 6, [T("c")])])})))
     lv = Layout(alignment=Alignment(None, VA.CENTER))
     lh = Layout(alignment=Alignment(HA.CENTER, None))
     sets.append(("one_component_alignments", CaptionSet({"en": CaptionList([
@@ -145,7 +153,7 @@ def bounded(ctx, b):
     for name, cs in sets:
         for wi, (W, opts) in enumerate(WRITER_OPTIONS):
             last = (cs.get_languages() or ["en"])[-1]
-            for force in ["", last, "zz", last.swapcase()]:
+            for force in ["", last, "zz", last.swapcase(), (cs.get_languages() or ["en"])[0]]:
                 def one(W=W, opts=opts, force=force, cs=cs, wi=wi):
                     try:
                         doc = shared[wi].write(cs, force=force)
